@@ -1,3 +1,7 @@
 pub mod c04_c05;
 pub mod c13;
 pub mod c14;
+pub mod c17;
+pub mod c20;
+#[cfg(feature = "vclock")]
+pub mod c15;
